@@ -447,3 +447,494 @@ Proof.
   unfold found_name, lookup_name. destruct (sget n (s_n2r st)); [auto|].
   destruct (w_handler w n); [|auto]. destruct (is_some _); cbn; auto.
 Qed.
+
+(* ------------------------------------------------------------------ invariants of reachable states *)
+Lemma get_set_same st c x : get_conn (set_conn st c x) c = x.
+Proof. destruct c; reflexivity. Qed.
+Lemma get_set_other st c c' x : c <> c' -> get_conn (set_conn st c x) c' = get_conn st c'.
+Proof. destruct c, c'; intros H; try reflexivity; contradiction. Qed.
+Lemma get_assign st o p sw c : get_conn (assign_name st o p sw) c = get_conn st c.
+Proof. unfold assign_name. destruct (zget o (s_r2n st)); destruct c; reflexivity. Qed.
+Lemma cid_dec (a b : cid) : {a = b} + {a <> b}.
+Proof. decide equality. Qed.
+
+Definition conn_ok (cn : conn) : Prop :=
+  0 < c_next cn /\
+  forall k o rc, In (k, (o, rc)) (c_exports cn) -> 0 < rc /\ k <> 0 /\ Z.abs k < c_next cn.
+Definition logged (c : cid) (cn : conn) (log : list (cid * Z * Z)) : Prop :=
+  forall k o rc, In (k, (o, rc)) (c_exports cn) -> In (c, k, o) log.
+Definition inv (st : state) (log : list (cid * Z * Z)) : Prop :=
+  forall c, conn_ok (get_conn st c) /\ logged c (get_conn st c) log.
+
+Lemma logged_mono c cn log more : logged c cn log -> logged c cn (log ++ more).
+Proof. intros H k o rc Hin. apply in_or_app. left. eapply H; eauto. Qed.
+
+Lemma inv_same_conns st st' log more :
+  (forall c, get_conn st' c = get_conn st c) -> inv st log -> inv st' (log ++ more).
+Proof.
+  intros E H c. rewrite E. destruct (H c) as [A B]. split; [exact A | apply logged_mono; exact B].
+Qed.
+
+Lemma inv_one_conn st log c cn' more :
+  inv st log -> conn_ok cn' -> logged c cn' (log ++ more) -> inv (set_conn st c cn') (log ++ more).
+Proof.
+  intros H A B c'. destruct (cid_dec c c') as [E|E].
+  - subst c'. rewrite get_set_same. split; assumption.
+  - rewrite (get_set_other _ _ _ _ E). destruct (H c') as [A' B']. split; [exact A' | apply logged_mono; exact B'].
+Qed.
+
+Lemma grant_inv w st c o sw st' sent log :
+  inv st log -> grant w st c o sw = (st', sent) -> inv st' (log ++ sent).
+Proof.
+  intros H G. unfold grant in G.
+  destruct (negb (c_alive (get_conn st c))).
+  { inversion G; subst. rewrite app_nil_r. exact H. }
+  destruct (H c) as [[Nx Ok] Lg].
+  set (cn := get_conn st c) in *.
+  destruct (match find_obj o (c_exports cn) with
+            | Some (k, rc) => (k, rc, c_next cn)
+            | None => (match o_kind (w_obj w o) with KObj => c_next cn | KCallable => if callable_clid_negated then - c_next cn else c_next cn end,
+                       tracker_initial_refcount, c_next cn + 1)
+            end) as [[clid rc] nxt] eqn:F.
+  assert (NEW : 0 <= rc /\ clid <> 0 /\ Z.abs clid < nxt /\ c_next cn <= nxt /\
+                (rc = 0 \/ In (clid, (o, rc)) (c_exports cn))).
+  { destruct (find_obj o (c_exports cn)) as [[k rc0]|] eqn:FO.
+    - inversion F; subst. apply find_obj_In in FO. destruct (Ok _ _ _ FO) as [? [? ?]].
+      repeat split; try lia; auto.
+    - unfold tracker_initial_refcount, callable_clid_negated in F.
+      destruct (o_kind (w_obj w o)); inversion F; subst; repeat split; try lia; auto. }
+  destruct NEW as [R0 [C0 [C1 [N1 OLD]]]].
+  unfold tracker_send_incr in G.
+  set (cn' := {| c_alive := true; c_exports := zset clid (o, rc + 1) (c_exports cn); c_next := nxt |}) in *.
+  assert (I' : inv (set_conn st c cn') (log ++ [(c, clid, o)])).
+  { apply inv_one_conn; [exact H| |].
+    - split; [cbn; lia|]. cbn [c_exports c_next cn']. intros k o' rc' Hin.
+      apply In_zset in Hin. destruct Hin as [E|Hin].
+      + inversion E; subst. repeat split; try lia; auto.
+      + destruct (Ok _ _ _ Hin) as [? [? ?]]. repeat split; try lia; auto.
+    - cbn [c_exports cn']. intros k o' rc' Hin. apply In_zset in Hin. apply in_or_app. destruct Hin as [E|Hin].
+      + inversion E; subst. right. left. reflexivity.
+      + left. eapply Lg; eauto. }
+  destruct (rc + 1 =? 1); inversion G; subst; [|exact I'].
+  intros c'. rewrite get_assign. apply I'.
+Qed.
+
+Lemma decref_ok cn k n : conn_ok cn -> conn_ok (decref cn k n) /\
+  (forall k' o rc, In (k', (o, rc)) (c_exports (decref cn k n)) -> exists rc0, In (k', (o, rc0)) (c_exports cn)).
+Proof.
+  intros [Nx Ok]. unfold decref. destruct (k =? 0). { split; [split; auto|]. intros; eauto. }
+  destruct (zget k (c_exports cn)) as [[o rc]|] eqn:G. 2:{ split; [split; auto|]. intros; eauto. }
+  destruct (tracker_decref n rc) as [[done rc']|] eqn:T. 2:{ split; [split; auto|]. intros; eauto. }
+  apply tracker_decref_spec in T. destruct T as [T1 [T2 T3]]. apply zget_In in G.
+  destruct (Ok _ _ _ G) as [? [? ?]].
+  destruct done; cbn [c_exports c_next].
+  - split; [split; [exact Nx|]|].
+    + intros k' o' rc0 Hin. apply In_zdel in Hin. eapply Ok; eauto.
+    + intros k' o' rc0 Hin. apply In_zdel in Hin. eauto.
+  - assert (rc' <> 0) by (intros E; apply T3 in E; discriminate).
+    split; [split; [exact Nx|]|].
+    + intros k' o' rc0 Hin. apply In_zset in Hin. destruct Hin as [E|Hin].
+      * inversion E; subst. repeat split; try lia; auto.
+      * eapply Ok; eauto.
+    + intros k' o' rc0 Hin. apply In_zset in Hin. destruct Hin as [E|Hin].
+      * inversion E; subst. eauto.
+      * eauto.
+Qed.
+
+Lemma drop_ok cn : conn_ok cn -> conn_ok (drop_conn cn).
+Proof. intros [Nx _]. split; [exact Nx|]. cbn. intros ? ? ? []. Qed.
+
+Lemma step_inv w st e st' r log : inv st log -> step w st e = (st', r) -> inv st' (log ++ r_sent r).
+Proof.
+  intros H S. destruct e as [n o sw|o|n cls|c o sw|c req clid m args|c t|c].
+  - cbn [step] in S. inversion S; subst. cbn [r_sent res0]. apply inv_same_conns with (st := st); [|exact H]. intros c; apply get_assign.
+  - cbn [step] in S. inversion S; subst. cbn [r_sent res0]. apply inv_same_conns with (st := st); [|exact H].
+    intros c. destruct (zget o (s_r2n st)); [|reflexivity]. destruct (is_some _); destruct c; reflexivity.
+  - cbn [step] in S. inversion S; subst. cbn [r_sent res0]. apply inv_same_conns with (st := st); [|exact H].
+    intros c. destruct (is_some _); destruct c; reflexivity.
+  - cbn [step] in S. destruct (grant w st c o sw) as [s2 sent] eqn:G. inversion S; subst. cbn [r_sent].
+    eapply grant_inv; eauto.
+  - destruct (step_msg_shape _ _ _ _ _ _ _ _ _ S) as [[_ [E R]]|[[_ [_ [out [fx [B [Ho [_ F]]]]]]]|[_ [_ [inst [out [O [R E]]]]]]]].
+    + subst. cbn. rewrite app_nil_r. exact H.
+    + destruct fx.
+      * destruct F as [E1 E2]. subst. rewrite E2, app_nil_r. exact H.
+      * destruct F as [E1 E2]. subst. rewrite E2. apply inv_one_conn; [exact H | apply drop_ok; apply H | intros ? ? ? []].
+      * pose proof (found_name_lookup w st n) as FN. destruct (found_name w st n) as [[o st0]|].
+        -- destruct FN as [_ [_ [_ [EA EB]]]].
+           assert (I0 : inv st0 log). { intros c'. destruct (H c') as [X Y]. destruct c'; cbn [get_conn] in *; rewrite ?EA, ?EB; auto. }
+           destruct (req =? 0).
+           ++ destruct F as [E1 E2]. subst. rewrite E2, app_nil_r. exact I0.
+           ++ eapply grant_inv; eauto.
+        -- destruct F as [E1 E2]. subst. rewrite E2, app_nil_r. exact H.
+      * destruct F as [E1 E2]. subst. rewrite E2. destruct (H c) as [X Y].
+        destruct (decref_ok (get_conn st c) clid0 k X) as [D1 D2].
+        apply inv_one_conn; [exact H | exact D1 |].
+        intros k' o' rc' Hin. destruct (D2 _ _ _ Hin) as [rc0 Hin0]. apply in_or_app. left. eapply Y; eauto.
+    + subst r. cbn [r_sent]. destruct out; subst st'; try (rewrite app_nil_r; exact H).
+      apply inv_one_conn; [exact H | apply drop_ok; apply H | intros ? ? ? []].
+  - cbn [step] in S. inversion S; subst. cbn [r_sent res0]. rewrite app_nil_r. exact H.
+  - cbn [step] in S. inversion S; subst. cbn [r_sent res0].
+    apply inv_one_conn; [exact H | apply drop_ok; apply H | intros ? ? ? []].
+Qed.
+
+Lemma run_inv w h : forall st st' rs log, inv st log -> run w st h = (st', rs) -> inv st' (log ++ sent_of rs).
+Proof.
+  induction h as [|e h IH]; intros st st' rs log H R; cbn [run] in R.
+  - inversion R; subst. unfold sent_of. cbn. rewrite app_nil_r. exact H.
+  - destruct (step w st e) as [st1 x] eqn:S. destruct (run w st1 h) as [st2 xs] eqn:R2. inversion R; subst.
+    unfold sent_of. cbn [map List.concat]. rewrite app_assoc. eapply IH; [|exact R2]. eapply step_inv; eauto.
+Qed.
+
+Lemma init_inv : inv init [].
+Proof.
+  intros c. unfold conn_ok, logged.
+  destruct c; cbn [get_conn init s_a s_b new_conn c_next c_exports In];
+    (split; [split; [unfold first_clid; lia | intros ? ? ? []] | intros ? ? ? []]).
+Qed.
+
+(* whatever this connection's table holds after any history was sent over this very connection (as a my-reference
+   with that id), is referenced a positive number of times, and its id is neither 0 nor one the counter has yet to reach *)
+Theorem exports_were_granted : forall w h st rs c clid o rc,
+  run w init h = (st, rs) -> zget clid (c_exports (get_conn st c)) = Some (o, rc) ->
+  0 < rc /\ clid <> 0 /\ Z.abs clid < c_next (get_conn st c) /\ In (c, clid, o) (sent_of rs).
+Proof.
+  intros w h st rs c clid o rc R G. pose proof (run_inv w h _ _ _ _ init_inv R) as I. cbn [app] in I.
+  destruct (I c) as [[Nx Ok] Lg]. apply zget_In in G. destruct (Ok _ _ _ G) as [? [? ?]].
+  repeat split; auto. eapply Lg; eauto.
+Qed.
+
+(* a my-reference is emitted only when the application sends the object on that connection, or when that connection's
+   peer asked for a name the Tub resolves to it *)
+Theorem sent_justified : forall w st e st' r c clid o,
+  step w st e = (st', r) -> In (c, clid, o) (r_sent r) ->
+  (exists sw, e = Grant c o sw) \/
+  (exists req n, e = Msg c req broker_clid (MStr "getReferenceByName") [ABytes (MStr n)] /\ req <> 0 /\
+                 lookup_name w st n = Some o).
+Proof.
+  assert (GS : forall w st c o sw st' sent c' k o', grant w st c o sw = (st', sent) -> In (c', k, o') sent -> c' = c /\ o' = o).
+  { intros w st c o sw st' sent c' k o' G Hin. unfold grant in G.
+    destruct (negb (c_alive (get_conn st c))); [inversion G; subst; destruct Hin|].
+    destruct (match find_obj o (c_exports (get_conn st c)) with Some (k0, rc) => _ | None => _ end) as [[clid rc] nxt].
+    inversion G; subst. destruct Hin as [E|[]]. inversion E; subst. auto. }
+  intros w st e st' r c clid o S Hin. destruct e as [n o0 sw|o0|n cls|c0 o0 sw|c0 req clid0 m args|c0 t|c0];
+    try (cbn [step] in S; inversion S; subst; destruct Hin; fail).
+  - cbn [step] in S. destruct (grant w st c0 o0 sw) as [s2 sent] eqn:G. inversion S; subst. cbn [r_sent] in Hin.
+    destruct (GS _ _ _ _ _ _ _ _ _ _ G Hin) as [? ?]. subst. left. eexists; reflexivity.
+  - destruct (step_msg_shape _ _ _ _ _ _ _ _ _ S) as [[_ [E R]]|[[_ [BC [out [fx [B [Ho [_ F]]]]]]]|[_ [_ [inst [out [O [R E]]]]]]]].
+    + subst. destruct Hin.
+    + destruct fx; try (destruct F as [_ F]; rewrite F in Hin; destruct Hin; fail).
+      pose proof (found_name_lookup w st n) as FN. destruct (found_name w st n) as [[o1 st0]|].
+      2:{ destruct F as [_ F]; rewrite F in Hin; destruct Hin. }
+      destruct (req =? 0) eqn:RQ. { destruct F as [_ F]; rewrite F in Hin; destruct Hin. }
+      destruct (GS _ _ _ _ _ _ _ _ _ _ F Hin) as [? ?]. subst. right.
+      (* the message was getReferenceByName with one byte-string argument *)
+      unfold broker_call in B. destruct m as [s|]; [|discriminate].
+      destruct (iface_enforced && negb (mem_str s broker_methods)); [discriminate|].
+      destruct (negb (mem_str (remote_prefix ++ s) broker_remote_attrs)); [discriminate|].
+      destruct (String.eqb s "getReferenceByName") eqn:SN.
+      * apply String.eqb_eq in SN. subst s.
+        destruct args as [|[v|[nm|]|k|n0|t] [|? ?]]; try discriminate. inversion B; subst.
+        exists req, n. split; [reflexivity|]. split; [apply Z.eqb_neq; exact RQ | apply FN].
+      * destruct (String.eqb s "decref").
+        { destruct args as [|[v|b|k|n0|t] [|[v2|b2|k2|n2|t2] [|? ?]]]; discriminate. }
+        destruct (String.eqb s "decgift").
+        { destruct args as [|[v|b|k|n0|t] [|[v2|b2|k2|n2|t2] [|? ?]]]; discriminate. }
+        discriminate.
+    + subst r. destruct Hin.
+Qed.
+
+(* ------------------------------------------------------------------ locality *)
+Ltac split_matches :=
+  repeat (cbn [get_conn set_conn set_names set_copy s_n2r s_r2n s_copy s_a s_b fst snd res0 r_inst r_out r_sent
+                c_alive c_exports c_next drop_conn];
+          match goal with
+          | |- context [match ?x with _ => _ end] => destruct x eqn:?
+          end);
+  cbn [get_conn set_conn set_names set_copy s_n2r s_r2n s_copy s_a s_b fst snd res0 r_inst r_out r_sent
+       c_alive c_exports c_next drop_conn]; try reflexivity; try congruence.
+
+Lemma grant_frame w st c c' x o sw : c <> c' ->
+  grant w (set_conn st c' x) c o sw = (set_conn (fst (grant w st c o sw)) c' x, snd (grant w st c o sw)).
+Proof.
+  intros NC. destruct st as [n2r r2n cp a b].
+  destruct c, c'; try congruence; unfold grant, assign_name; split_matches.
+Qed.
+
+Lemma found_frame w st c' x n :
+  found_name w (set_conn st c' x) n =
+  match found_name w st n with Some (o, s0) => Some (o, set_conn s0 c' x) | None => None end.
+Proof. destruct st as [n2r r2n cp a b]. destruct c'; unfold found_name; split_matches. Qed.
+
+(* the other connection's table is a frame for everything that does not happen on it: it is neither read nor written *)
+Theorem step_frame : forall w st e c' x,
+  on_conn e <> Some c' ->
+  step w (set_conn st c' x) e = (set_conn (fst (step w st e)) c' x, snd (step w st e)).
+Proof.
+  intros w st e c' x NC.
+  destruct e as [n o sw|o|n cls|c o sw|c req clid m args|c t|c]; cbn [on_conn] in NC.
+  - destruct st as [n2r r2n cp a b]. destruct c'; unfold step, assign_name; split_matches.
+  - destruct st as [n2r r2n cp a b]. destruct c'; unfold step; split_matches.
+  - destruct st as [n2r r2n cp a b]. destruct c'; unfold step; split_matches.
+  - assert (c <> c') by congruence. cbn [step]. rewrite grant_frame by assumption.
+    destruct (grant w st c o sw); reflexivity.
+  - assert (NE : c <> c') by congruence. cbn [step].
+    rewrite (get_set_other _ _ _ _ (not_eq_sym NE)).
+    destruct (negb (c_alive (get_conn st c))); [reflexivity|].
+    destruct (clid =? broker_clid).
+    + destruct (broker_call m args) as [out fx]. destruct fx.
+      * reflexivity.
+      * cbn [fst snd]. f_equal. destruct st, c, c'; try congruence; reflexivity.
+      * rewrite found_frame. destruct (found_name w st n) as [[o s0]|]; [|reflexivity].
+        destruct (req =? 0); [reflexivity|]. rewrite grant_frame by assumption.
+        destruct (grant w s0 c o ""); reflexivity.
+      * cbn [fst snd]. f_equal. destruct st, c, c'; try congruence; reflexivity.
+    + replace (s_copy (set_conn st c' x)) with (s_copy st) by (destruct c'; reflexivity).
+      destruct (obj_call w (s_copy st) (get_conn st c) clid m args) as [inst out].
+      cbn [fst snd]. f_equal. destruct out; try reflexivity. destruct st, c, c'; try congruence; reflexivity.
+  - assert (NE : c <> c') by congruence. cbn [step]. rewrite (get_set_other _ _ _ _ (not_eq_sym NE)). reflexivity.
+  - assert (NE : c <> c') by congruence. cbn [step]. rewrite (get_set_other _ _ _ _ (not_eq_sym NE)).
+    cbn [fst snd]. f_equal. destruct st, c, c'; try congruence; reflexivity.
+Qed.
+
+(* ... for whole histories: whatever the other connection's table holds, a history of events elsewhere behaves the same *)
+Theorem run_frame : forall w h st c' x,
+  (forall e, In e h -> on_conn e <> Some c') ->
+  run w (set_conn st c' x) h = (set_conn (fst (run w st h)) c' x, snd (run w st h)).
+Proof.
+  induction h as [|e h IH]; intros st c' x NC; cbn [run].
+  - reflexivity.
+  - rewrite step_frame by (apply NC; left; reflexivity).
+    destruct (step w st e) as [st1 r1]. cbn [fst snd].
+    rewrite IH by (intros e' He'; apply NC; right; exact He').
+    destruct (run w st1 h) as [st2 rs]. reflexivity.
+Qed.
+
+Lemma set_get_id st c : set_conn st c (get_conn st c) = st.
+Proof. destruct st, c; reflexivity. Qed.
+
+(* an event that does not happen on c leaves c's table alone *)
+Lemma step_other_conn w st e c : on_conn e <> Some c -> get_conn (fst (step w st e)) c = get_conn st c.
+Proof.
+  intros NC. pose proof (step_frame w st e c (get_conn st c) NC) as F. rewrite set_get_id in F.
+  rewrite F at 1. cbn [fst]. apply get_set_same.
+Qed.
+
+Definition same_view (c : cid) (s1 s2 : state) : Prop := get_conn s1 c = get_conn s2 c /\ s_copy s1 = s_copy s2.
+
+Lemma copy_assign st o p sw : s_copy (assign_name st o p sw) = s_copy st.
+Proof. unfold assign_name. destruct (zget o (s_r2n st)); reflexivity. Qed.
+Lemma copy_set_conn st c x : s_copy (set_conn st c x) = s_copy st.
+Proof. destruct c; reflexivity. Qed.
+Lemma copy_grant w st c o sw : s_copy (fst (grant w st c o sw)) = s_copy st.
+Proof.
+  unfold grant. destruct (negb (c_alive (get_conn st c))); [reflexivity|].
+  destruct (match find_obj o (c_exports (get_conn st c)) with Some (k, rc) => _ | None => _ end) as [[clid rc] nxt].
+  destruct (rc + tracker_send_incr =? 1); cbn [fst]; rewrite ?copy_assign, ?copy_set_conn; reflexivity.
+Qed.
+Lemma copy_found w st n o s0 : found_name w st n = Some (o, s0) -> s_copy s0 = s_copy st.
+Proof. intros H. pose proof (found_name_lookup w st n) as F. rewrite H in F. tauto. Qed.
+
+Lemma step_copy w st e : (forall n cls, e <> RegisterCopy n cls) -> s_copy (fst (step w st e)) = s_copy st.
+Proof.
+  intros NR. destruct e as [n o sw|o|n cls|c o sw|c req clid m args|c t|c]; cbn [step].
+  - cbn [fst]. apply copy_assign.
+  - cbn [fst]. destruct (zget o (s_r2n st)); [|reflexivity]. destruct (is_some _); reflexivity.
+  - exfalso. eapply NR; reflexivity.
+  - pose proof (copy_grant w st c o sw) as G. destruct (grant w st c o sw). exact G.
+  - destruct (negb (c_alive (get_conn st c))); [reflexivity|].
+    destruct (clid =? broker_clid).
+    + destruct (broker_call m args) as [out fx]. destruct fx; cbn [fst]; rewrite ?copy_set_conn; try reflexivity.
+      destruct (found_name w st n) as [[o s0]|] eqn:F; [|reflexivity].
+      destruct (req =? 0); [cbn [fst]; eapply copy_found; eauto|].
+      pose proof (copy_grant w s0 c o "") as G. destruct (grant w s0 c o ""). cbn [fst] in *.
+      rewrite G. eapply copy_found; eauto.
+    + destruct (obj_call w (s_copy st) (get_conn st c) clid m args) as [inst out]. cbn [fst].
+      destruct out; rewrite ?copy_set_conn; reflexivity.
+  - reflexivity.
+  - cbn [fst]. apply copy_set_conn.
+Qed.
+
+Lemma cid_eqb_eq a b : cid_eqb a b = true <-> a = b.
+Proof. destruct a, b; cbn; split; intros; congruence. Qed.
+
+(* events that are not c's own (and do not change the copyable registry) preserve what c can see *)
+Lemma irrelevant_preserves w c st e : relevant c e = false -> same_view c st (fst (step w st e)).
+Proof.
+  intros R. split.
+  - symmetry. apply step_other_conn. intros E.
+    destruct e; cbn [on_conn] in E; try discriminate; inversion E; subst;
+      cbn [relevant on_conn] in R; rewrite (proj2 (cid_eqb_eq c c) eq_refl) in R; discriminate.
+  - symmetry. apply step_copy. intros n cls E. subst e. discriminate.
+Qed.
+
+Lemma grant_local w s1 s2 c o sw : get_conn s1 c = get_conn s2 c ->
+  snd (grant w s1 c o sw) = snd (grant w s2 c o sw) /\
+  get_conn (fst (grant w s1 c o sw)) c = get_conn (fst (grant w s2 c o sw)) c.
+Proof.
+  intros E. unfold grant. rewrite E. destruct (negb (c_alive (get_conn s2 c))); [cbn [fst snd]; auto|].
+  destruct (match find_obj o (c_exports (get_conn s2 c)) with Some (k, rc) => _ | None => _ end) as [[clid rc] nxt].
+  destruct (rc + tracker_send_incr =? 1); cbn [fst snd]; rewrite ?get_assign, ?get_set_same; auto.
+Qed.
+
+Lemma broker_call_lookup m args out n : broker_call m args = (out, FxLookup n) -> m = MStr "getReferenceByName".
+Proof.
+  unfold broker_call. destruct m as [s|]; [|discriminate].
+  destruct (iface_enforced && negb (mem_str s broker_methods)); [discriminate|].
+  destruct (negb (mem_str (remote_prefix ++ s) broker_remote_attrs)); [discriminate|].
+  destruct (String.eqb s "getReferenceByName") eqn:SN. { apply String.eqb_eq in SN. subst; reflexivity. }
+  destruct (String.eqb s "decref").
+  { destruct args as [|[v|b|k|n0|t] [|[v2|b2|k2|n2|t2] [|? ?]]]; discriminate. }
+  destruct (String.eqb s "decgift").
+  { destruct args as [|[v|b|k|n0|t] [|[v2|b2|k2|n2|t2] [|? ?]]]; discriminate. }
+  discriminate.
+Qed.
+
+(* c's own events other than a name lookup: the result and c's new table are a function of c's table (and the registry) *)
+Lemma relevant_deterministic w c s1 s2 e :
+  same_view c s1 s2 -> relevant c e = true -> is_lookup e = false ->
+  same_view c (fst (step w s1 e)) (fst (step w s2 e)) /\ snd (step w s1 e) = snd (step w s2 e).
+Proof.
+  intros [EC EK] R NL.
+  assert (ON : forall c0, on_conn e = Some c0 -> c0 = c).
+  { intros c0 E. unfold relevant in R. destruct e; cbn [on_conn] in E; try discriminate; inversion E; subst;
+      symmetry; apply cid_eqb_eq; exact R. }
+  destruct e as [n o sw|o|n cls|c0 o sw|c0 req clid m args|c0 t|c0]; try discriminate.
+  - (* RegisterCopy *) cbn [step]. rewrite EK. destruct (is_some (sget n (s_copy s2))); cbn [fst snd].
+    + split; [split; auto | reflexivity].
+    + split; [|reflexivity]. split.
+      * destruct c; cbn [get_conn set_copy s_a s_b] in *; exact EC.
+      * cbn [set_copy s_copy]. rewrite ?EK. reflexivity.
+  - (* Grant *) rewrite (ON c0 eq_refl) in *. cbn [step].
+    destruct (grant_local w s1 s2 c o sw EC) as [G1 G2].
+    pose proof (copy_grant w s1 c o sw) as K1. pose proof (copy_grant w s2 c o sw) as K2.
+    destruct (grant w s1 c o sw) as [t1 l1]. destruct (grant w s2 c o sw) as [t2 l2]. cbn [fst snd] in *.
+    subst l2. split; [split; [exact G2 | congruence] | reflexivity].
+  - (* Msg *) rewrite (ON c0 eq_refl) in *. cbn [step]. rewrite EC.
+    destruct (negb (c_alive (get_conn s2 c))). { cbn [fst snd]. split; [split; auto | reflexivity]. }
+    destruct (clid =? broker_clid) eqn:BC.
+    + destruct (broker_call m args) as [out fx] eqn:B. destruct fx; cbn [fst snd].
+      * split; [split; auto | reflexivity].
+      * split; [split; [rewrite !get_set_same; reflexivity | rewrite !copy_set_conn; exact EK] | reflexivity].
+      * exfalso. apply broker_call_lookup in B. subst m. cbn [is_lookup] in NL. rewrite BC in NL. discriminate.
+      * split; [split; [rewrite !get_set_same; reflexivity | rewrite !copy_set_conn; exact EK] | reflexivity].
+    + rewrite EK. destruct (obj_call w (s_copy s2) (get_conn s2 c) clid m args) as [inst out]. cbn [fst snd].
+      split; [|reflexivity]. destruct out; try (split; auto; fail).
+      split; [rewrite !get_set_same; reflexivity | rewrite !copy_set_conn; exact EK].
+  - (* TopMsg *) rewrite (ON c0 eq_refl) in *. cbn [step]. rewrite EC. cbn [fst snd]. split; [split; auto | reflexivity].
+  - (* Drop *) rewrite (ON c0 eq_refl) in *. cbn [step]. rewrite EC. cbn [fst snd].
+    split; [split; [rewrite !get_set_same; reflexivity | rewrite !copy_set_conn; exact EK] | reflexivity].
+Qed.
+
+Definition no_lookup_on (c : cid) (h : list event) : Prop :=
+  forall e, In e h -> relevant c e = true -> is_lookup e = false.
+
+Lemma same_view_trans c s1 s2 s3 : same_view c s1 s2 -> same_view c s2 s3 -> same_view c s1 s3.
+Proof. intros [A B] [C D]. split; congruence. Qed.
+Lemma same_view_sym c s1 s2 : same_view c s1 s2 -> same_view c s2 s1.
+Proof. intros [A B]. split; congruence. Qed.
+
+Lemma run_vs_projection w c h : forall s1 s2,
+  same_view c s1 s2 -> no_lookup_on c h ->
+  same_view c (fst (run w s1 h)) (fst (run w s2 (proj c h))) /\
+  results_on c h (snd (run w s1 h)) = snd (run w s2 (proj c h)).
+Proof.
+  induction h as [|e h IH]; intros s1 s2 V NL.
+  - cbn. split; [exact V | reflexivity].
+  - assert (NL' : no_lookup_on c h) by (intros e' He' R'; apply NL; [right; exact He' | exact R']).
+    cbn [run proj filter]. destruct (relevant c e) eqn:R.
+    + cbn [run].
+      destruct (relevant_deterministic w c s1 s2 e V R (NL e (or_introl eq_refl) R)) as [V1 E1].
+      destruct (step w s1 e) as [t1 x1]. destruct (step w s2 e) as [t2 x2]. cbn [fst snd] in *. subst x2.
+      specialize (IH t1 t2 V1 NL'). fold (proj c h) in *.
+      destruct (run w t1 h) as [u1 xs1]. destruct (run w t2 (proj c h)) as [u2 xs2]. cbn [fst snd] in *.
+      cbn [results_on]. rewrite R. destruct IH as [IH1 IH2]. split; [exact IH1 | rewrite IH2; reflexivity].
+    + pose proof (irrelevant_preserves w c s1 e R) as V1.
+      destruct (step w s1 e) as [t1 x1]. cbn [fst] in V1.
+      specialize (IH t1 s2 (same_view_trans _ _ _ _ (same_view_sym _ _ _ V1) V) NL'). fold (proj c h) in *.
+      destruct (run w t1 h) as [u1 xs1]. cbn [fst snd] in *. cbn [results_on]. rewrite R. exact IH.
+Qed.
+
+(* Connection-locality of object ids over all interleaved histories: two histories -- with arbitrary, different activity
+   on the other connection (grants, releases, inbound messages, drops) and in the Tub's name table -- that agree on c's
+   own events give c the same export table and the same outcome for every one of c's messages.  (A name lookup is the one
+   message that reads Tub-wide state: the name table is shared by design.) *)
+Theorem id_locality : forall w c h1 h2 s1 s2,
+  same_view c s1 s2 -> no_lookup_on c h1 -> no_lookup_on c h2 -> proj c h1 = proj c h2 ->
+  same_view c (fst (run w s1 h1)) (fst (run w s2 h2)) /\
+  results_on c h1 (snd (run w s1 h1)) = results_on c h2 (snd (run w s2 h2)).
+Proof.
+  intros w c h1 h2 s1 s2 V N1 N2 P.
+  destruct (run_vs_projection w c h1 s1 s2 V N1) as [A1 B1].
+  destruct (run_vs_projection w c h2 s2 s2 (conj eq_refl eq_refl) N2) as [A2 B2].
+  rewrite P in A1, B1. split.
+  - eapply same_view_trans; [exact A1 | apply same_view_sym; exact A2].
+  - congruence.
+Qed.
+
+(* ------------------------------------------------------------------ the copyable registry *)
+Lemma copy_origin_step w st e : forall n cls,
+  In (n, cls) (s_copy (fst (step w st e))) -> In (n, cls) (s_copy st) \/ e = RegisterCopy n cls.
+Proof.
+  intros n cls Hin. destruct e as [n0 o sw|o|n0 cls0|c o sw|c req clid m args|c t|c];
+    try (left; rewrite step_copy in Hin by (intros; discriminate); exact Hin).
+  cbn [step fst] in Hin. destruct (is_some (sget n0 (s_copy st))); [left; exact Hin|].
+  cbn [set_copy s_copy] in Hin. apply In_sset in Hin. destruct Hin as [E|Hin]; [right; inversion E; reflexivity | left; exact Hin].
+Qed.
+
+Theorem copy_origin : forall w h st n cls,
+  sget n (s_copy (fst (run w st h))) = Some cls ->
+  In (n, cls) (s_copy st) \/ In (RegisterCopy n cls) h.
+Proof.
+  intros w h. induction h as [|e h IH]; intros st n cls G.
+  - cbn in G. left. apply sget_In; exact G.
+  - cbn [run] in G. pose proof (copy_origin_step w st e n cls) as S.
+    destruct (step w st e) as [st1 x]. specialize (IH st1 n cls).
+    destruct (run w st1 h) as [st2 xs]. cbn [fst] in *.
+    destruct (IH G) as [H|H]; [|right; right; exact H].
+    destruct (S H) as [H'|H']; [left; exact H' | right; left; exact H'].
+Qed.
+
+Lemma init_copy_names : forall n cls, In (n, cls) (s_copy init) -> In n copyable_names.
+Proof.
+  intros n cls. cbn [init s_copy]. generalize (-1). induction copyable_names as [|a l IH]; intros k H; cbn [number_from] in H.
+  - destruct H.
+  - destruct H as [E|H]; [inversion E; left; reflexivity | right; eapply IH; eauto].
+Qed.
+
+(* ------------------------------------------------------------------ non-vacuity: the hypotheses above are met by real runs *)
+Definition ex_world : world :=
+  {| w_obj := fun o => if o =? 1 then {| o_kind := KObj; o_attrs := ["remote_hi"; "secret"]%string; o_iface := None |}
+                       else if o =? 2 then {| o_kind := KObj; o_attrs := ["remote_hi"; "remote_x"]%string; o_iface := Some ["hi"%string] |}
+                       else {| o_kind := KCallable; o_attrs := []; o_iface := None |};
+     w_handler := fun n => if String.eqb n "dyn" then Some 2 else None |}.
+Definition ex_hist : list event :=
+  [Register "pub" 2 "sw0"; RegisterCopy "my.rc" 7; Grant CA 1 "sw0"; Grant CB 3 "sw1";
+   Msg CA 1 1 (MStr "hi") [ACopyable "my.rc"; AYourRef 0; AOpen "list"];      (* enters remote_hi of 1, instantiates 7 *)
+   Msg CA 2 1 (MStr "secret") [];                                            (* refused: no remote_secret *)
+   Msg CB 1 1 (MStr "hi") [];                                                (* refused: 1 is A's id; on B it is unknown *)
+   Msg CB 2 (-1) (MStr "anything") [];                                       (* enters the callable 3 *)
+   Msg CA 3 0 (MStr "getReferenceByName") [ABytes (MStr "pub")];             (* grants 2 on A as clid 2 *)
+   Msg CA 4 2 (MStr "x") [];                                                 (* refused: x is not in 2's interface *)
+   Msg CA 5 0 (MStr "decref") [AInt 1; AInt 1];                              (* releases clid 1 *)
+   Msg CA 6 1 (MStr "hi") [];                                                (* refused: stale *)
+   Msg CA 7 2 (MStr "hi") [AYourRef 9]]%string.                              (* unknown your-reference: connection dropped *)
+Definition codes (rs : list result) : list (Z * list Z) :=
+  map (fun r => (match r_out r with Enter (EBroker _) => 1 | Enter (EObj o _) => 10 + o | Enter (ECallable o) => 20 + o
+                                   | Reject => 4 | Aborted => 5 | Dead => 6 | Local => 7 end, r_inst r)) rs.
+Example ex_run :
+  codes (snd (run ex_world init ex_hist)) =
+  [(7, []); (7, []); (7, []); (7, []); (11, [7]); (4, []); (4, []); (23, []); (1, []); (4, []); (1, []); (4, []); (5, [])] /\
+  c_exports (s_b (fst (run ex_world init ex_hist))) = [(-1, (3, 1))] /\
+  c_alive (s_a (fst (run ex_world init ex_hist))) = false.
+Proof. vm_compute. repeat split. Qed.
+
+(* two histories with different traffic on B and in the name table, same events on A: id_locality applies non-trivially *)
+Definition ex_h1 : list event :=
+  [Grant CA 1 "s0"; Grant CB 2 "s1"; Msg CB 1 1 (MStr "hi") []; Msg CA 1 1 (MStr "hi") []; Msg CA 2 0 (MStr "decref") [AInt 1; AInt 1]]%string.
+Definition ex_h2 : list event :=
+  [Register "pub" 2 "s9"; Grant CA 1 "s0"; Drop CB; Msg CA 1 1 (MStr "hi") []; Unregister 2; Msg CA 2 0 (MStr "decref") [AInt 1; AInt 1]]%string.
+Example ex_locality_hyps :
+  proj CA ex_h1 = proj CA ex_h2 /\ List.length (proj CA ex_h1) = 3%nat /\
+  forallb (fun e => negb (relevant CA e && is_lookup e)) (ex_h1 ++ ex_h2) = true /\
+  codes (results_on CA ex_h1 (snd (run ex_world init ex_h1))) = [(7, []); (11, []); (1, [])].
+Proof. vm_compute. repeat split. Qed.
